@@ -21,7 +21,8 @@ RULE = ("full product: HDS version {1,2} x sectors-per-cluster x size form x eve
 ASSUMPTIONS = [
     "HDS layout per QEMU docs/interop/parallels.txt as transcribed in mc/builders/hdd.py; BAT entry 0 = unallocated",
     "v1 BAT entries are sector numbers (need not be cluster multiples), v2 entries are cluster numbers",
-    "cluster sizes are powers of two sectors; virtual size may be fewer sectors than clusters x cluster size",
+    "cluster sizes are any number of sectors (powers of two and e.g. 63); virtual size may be fewer sectors than clusters x "
+    "cluster size",
 ]
 ALPHABET = "cluster state {H, D(slot)}; slots 1..W+1; version; sectors per cluster; v1 skew; size cut"
 BOUND = {"quick": "W=4 (one geometry W=5), buffers {512, 8192}", "thorough": "W=5/6, buffers {512, 4096, 8192, 65536}"}
@@ -36,8 +37,18 @@ GEOMS = {
         dict(ver=2, spc=1, W=4, cut=0, skew=0),
         dict(ver=1, spc=32, W=4, cut=5, skew=7),
         dict(ver=2, spc=2048, W=3, cut=9, skew=0, big=True),
+        # cluster sizes that are not powers of two (classic version-1 images use 63 sectors per track)
+        dict(ver=1, spc=63, W=3, cut=5, skew=0),
+        dict(ver=2, spc=3, W=4, cut=1, skew=0),
+        dict(ver=1, spc=12, W=3, cut=0, skew=5),
+        # a window deep inside the BAT
+        dict(ver=2, spc=8, W=3, cut=3, skew=0, at=1022),
     ],
     "thorough": [
+        dict(ver=1, spc=63, W=4, cut=5, skew=1),
+        dict(ver=2, spc=63, W=4, cut=0, skew=0),
+        dict(ver=2, spc=5, W=5, cut=2, skew=0),
+        dict(ver=2, spc=8, W=4, cut=3, skew=0, at=4093),
         dict(ver=2, spc=8, W=6, cut=0, skew=0),
         dict(ver=2, spc=16, W=5, cut=3, skew=0),
         dict(ver=1, spc=8, W=5, cut=1, skew=0),
@@ -68,7 +79,8 @@ def shards(tier):
 
 def _requests(g, size, buf):
     cl = g["spc"] * 512
-    pts = boundaries(size, cl, buf)
+    at = g.get("at", 0)
+    pts = boundaries(size, cl, buf, max(0, (at - 1) * cl), size) if at else boundaries(size, cl, buf)
     if g.get("big"):
         reqs = request_pairs(pts, 2 * buf + 1024)
         reqs += [(0, size), (0, 2 * cl), (cl // 2, 2 * cl), (cl - 512, cl + 1024), (cl, size), (1, size - 2)]
@@ -103,7 +115,10 @@ def _case_hds(case, ctx):
     from dissect.hypervisor.disk.hdd import HDS
 
     g = case["geom"]
-    states, slots = case["states"], case["slots"]
+    at = g.get("at", 0)
+    first = (64 + 4 * (at + len(case["states"]))) // (g["spc"] * 512) + 1 if at else 0
+    states = [HOLE] * at + list(case["states"])
+    slots = [None] * at + [p + first if p is not None else None for p in case["slots"]]
     spc = g["spc"]
     nsec = len(states) * spc - g["cut"]
     size = nsec * 512
